@@ -94,3 +94,24 @@ pub fn replay(_sc: &Value) -> Value {
     }
     json!({"violations": viol, "log": log})
 }
+
+/// Sequential history: set(a); set(b); reads. The first set wins and later sets never disturb it.
+pub fn replay_seq(_sc: &Value) -> Value {
+    let seen: Arc<Mutex<Vec<&'static str>>> = Arc::new(Mutex::new(vec![]));
+    let mut viol: Vec<Value> = vec![];
+    if cadence_macros::is_global_default_set() || cadence_macros::get_global_default().is_ok() {
+        viol.push(json!({"prop": "C18", "clause": "read-after-init", "detail": "a client is reported before any set"}));
+    }
+    cadence_macros::set_global_default(StatsdClient::from_sink("a", TagSink { tag: "a", seen: seen.clone() }));
+    let first = which_client(&seen);
+    cadence_macros::set_global_default(StatsdClient::from_sink("b", TagSink { tag: "b", seen: seen.clone() }));
+    let second = which_client(&seen);
+    let set2 = cadence_macros::is_global_default_set();
+    cadence_macros::set_global_default(StatsdClient::from_sink("c", TagSink { tag: "b", seen: seen.clone() }));
+    let third = which_client(&seen);
+    let log = format!("after set(a): {:?}; after set(b): {:?} (is_set = {}); after set(c): {:?}", first, second, set2, third);
+    if first != Some("a") || second != Some("a") || third != Some("a") || !set2 {
+        viol.push(json!({"prop": "C18", "clause": "stays-set", "detail": format!("the first set did not stay in place: {}", log)}));
+    }
+    json!({"violations": viol, "log": log})
+}
